@@ -30,3 +30,15 @@ func treejobMain(args []string) {
 		fmt.Println(panicSig(res.Panic))
 	}
 }
+
+func init() { register("c06job", c06jobMain) }
+
+// c06job <k>: debug helper, prints and runs quick case k.
+func c06jobMain(args []string) {
+	k, _ := strconv.Atoi(args[0])
+	c := c06QuickCase(ev.Seed(), k)
+	fmt.Println(c.Label(), len(c.Seed.Data))
+	t0 := time.Now()
+	res := decodeDirect(applyMutation(c.Seed.Data, c.Mut), c.Format, c.Force)
+	fmt.Printf("decode: %v tree=%v err=%v panic=%v\n", time.Since(t0), res.V != nil, res.Err != nil, res.Panic != nil)
+}
